@@ -55,6 +55,17 @@ namespace detail {
     if constexpr (std::is_signed_v<T_Idx>) {
       negative = idx < 0;
     }
+    // An index type wider than a pointer (__int128 is an integer type in the
+    // GNU dialects) must not be cut down to its low bits: a magnitude that
+    // does not fit cannot designate an address
+    if constexpr (sizeof(T_Idx) > sizeof(uintptr_t)) {
+      const T_Idx limit = static_cast<T_Idx>(max_val);
+      if (negative) {
+        dynamic_check(idx >= static_cast<T_Idx>(0) - limit, err_msg);
+      } else {
+        dynamic_check(idx <= limit, err_msg);
+      }
+    }
     // magnitude of the index; correct for the most negative value also
     uintptr_t magnitude = negative
                             ? static_cast<uintptr_t>(0) - static_cast<uintptr_t>(idx)
@@ -69,6 +80,23 @@ namespace detail {
     }
     dynamic_check(bytes <= max_val - ptr, err_msg);
     return ptr + bytes;
+  }
+
+  /**
+   * @brief Is the size operand of a bulk operation a value between 0 and
+   * limit? Written so that a negative value of a type wider than size_t
+   * (__int128 in the GNU dialects), which a mixed comparison with size_t would
+   * not turn into a huge number, is not mistaken for its low bits.
+   */
+  template<typename T_Num>
+  inline bool is_size_within(T_Num num, size_t limit)
+  {
+    if constexpr (std::is_signed_v<T_Num> && (sizeof(T_Num) > sizeof(size_t))) {
+      if (num < 0) {
+        return false;
+      }
+    }
+    return num <= limit;
   }
 
 #ifdef RLBOX_NO_COMPILE_CHECKS
